@@ -33,6 +33,7 @@ class Node:
     group: tuple | None = None     # (first_node_idx, position) for multi-output ops
     has_saved: bool = False        # the torch op saves tensors for backward
     desc: str = ""
+    flip: bool = False             # leaf realised in the OTHER floating dtype than the one the program is built in
     layout: tuple | None = None    # leaf memory layout: ("perm", dims) = strides of a permuted tensor, ("step", k) = every
     #                                k-th element of a larger buffer; None = contiguous.  Values / shape are logical.
 
@@ -41,6 +42,8 @@ BIG = 2 ** 25 + 1      # odd, 26 bits: k*BIG is not representable in single prec
 
 
 def realise_leaf(nd: Node, dtype):
+    if nd.flip:
+        dtype = torch.float32 if dtype == torch.float64 else torch.float64
     t = torch.tensor(nd.vals, dtype=dtype).reshape(nd.shape).clone()
     if nd.layout is not None and t.numel() > 0:
         kind, arg = nd.layout
@@ -104,7 +107,8 @@ class Program:
 
     def describe(self):
         return [f"{i}:{nd.kind}{list(nd.shape)}{'' if nd.rg else '!rg'} {nd.desc}"
-                + (f" layout={nd.layout}" if nd.layout else "") for i, nd in enumerate(self.nodes)]
+                + (f" layout={nd.layout}" if nd.layout else "") + (" other-dtype" if nd.flip else "")
+                for i, nd in enumerate(self.nodes)]
 
     def requires_grad(self, i):
         nd = self.nodes[i]
@@ -347,6 +351,10 @@ def random_program(rng, n_leaves=None, n_ops=None, p_norg=0.15, max_numel=8, max
             sh = rng.choice(SHAPES)
             vals = [rng.choice([-3, -2, -1, 1, 2, 3, 0]) for _ in range(numel(sh))]
             P.add_leaf(sh, vals, rg=rng.random() >= p_norg, layout=random_layout(rng, sh))
+        if nl >= 2 and rng.random() < 0.12:
+            # parameters of different precisions in one model (a float32 network with a float64 parameter, or the reverse)
+            P.nodes[rng.randrange(nl)].flip = True
+            P.casts = True
         if not any(P.nodes[i].rg for i in P.leaves()):
             P.nodes[0].rg = True
         k = n_ops or rng.choice([1, 2, 3, 4, 5, 6, 8])
@@ -477,6 +485,9 @@ def random_mtl(rng, heads_disjoint=True, max_abs=300):
                                               rg=rng.random() >= 0.1, layout=random_layout(rng, sh)))
         if not any(P.nodes[i].rg for i in M.shared_leaves):
             P.nodes[M.shared_leaves[0]].rg = True
+        if len(M.shared_leaves) >= 2 and rng.random() < 0.1:
+            P.nodes[rng.choice(M.shared_leaves)].flip = True        # shared parameters of two precisions
+            P.casts = True
         pool = list(M.shared_leaves)
         grow(rng, P, pool, rng.choice([1, 2, 3, 4]))
         trunk = [i for i in pool if P.nodes[i].kind != "leaf" and P.requires_grad(i)]
@@ -493,6 +504,9 @@ def random_mtl(rng, heads_disjoint=True, max_abs=300):
                 sh = rng.choice(SHAPES[:8])
                 own.append(P.add_leaf(sh, [rng.choice([-2, -1, 1, 2]) for _ in range(numel(sh))],
                                       rg=rng.random() >= 0.1, layout=random_layout(rng, sh)))
+                if rng.random() < 0.04:
+                    P.nodes[own[-1]].flip = True                    # a head parameter in the other precision
+                    P.casts = True
             if prev_leaves and rng.random() < 0.3:
                 own.append(rng.choice(prev_leaves))           # a parameter shared by two tasks
             used_feats = [f for f in M.features if rng.random() < 0.7] or [rng.choice(M.features)]
